@@ -267,6 +267,47 @@ theorem toG_multinote (d : Dev) : multinoteP (toG d) = toG d.multinote := by
   generalize sortInts (d.noteTr.map (fun p => (p.2.1 : Int))) = l
   rcases l with _ | ⟨a, _ | ⟨b, r⟩⟩ <;> rfl
 
+theorem foldl_snoc_map {α β : Type} (f : α → β) (l : List α) (acc : List β) :
+    l.foldl (fun acc x => acc ++ [f x]) acc = acc ++ l.map f := by
+  induction l generalizing acc with
+  | nil => simp
+  | cons x r ih => simp [ih]
+
+theorem insertSorted_length (x : Int) (l : List Int) : (insertSorted x l).length = l.length + 1 := by
+  induction l with
+  | nil => rfl
+  | cons y r ih =>
+    unfold insertSorted
+    split
+    · rfl
+    · simp [ih]
+
+theorem sortInts_length (l : List Int) : (sortInts l).length = l.length := by
+  unfold sortInts
+  induction l with
+  | nil => rfl
+  | cons x r ih => simp only [List.foldr_cons, insertSorted_length, ih, List.length_cons]
+
+/-- the translated `Multinote` (device.go) is the model's: the pressed notes collected from the tracker, none or one of them
+    disengages, otherwise sorted and differenced against the lowest -/
+theorem Multinote_eq (g : GSt) : Body.Multinote g = multinoteP g := by
+  unfold Body.Multinote multinoteP
+  simp only [Id.run, pure, bind, wrapInt, foldl_snoc_map, List.nil_append]
+  have hl := sortInts_length (g.noteTr.map (fun p => ((p.2.1 : Nat) : Int)))
+  generalize hL : g.noteTr.map (fun p => ((p.2.1 : Nat) : Int)) = L at hl ⊢
+  rcases L with _ | ⟨a, _ | ⟨b, r⟩⟩
+  · rfl
+  · simp only [List.length_cons, List.length_nil]
+    rfl
+  · simp only [List.length_cons] at hl ⊢
+    generalize sortInts (a :: b :: r) = S at hl ⊢
+    rcases S with _ | ⟨x, _ | ⟨y, t⟩⟩
+    · simp at hl
+    · simp at hl
+    · have h0 : ¬ ((r.length : Int) + 1 + 1 = 0) := by omega
+      have h1 : ¬ ((r.length : Int) + 1 + 1 = 1) := by omega
+      simp [h0, h1, GSt.setMulti, foldl_snoc_map]
+
 theorem checkDouble_channel_lt (d : Dev) (h : d.channel < 256) : d.checkDouble.1.channel < 256 := by
   unfold Dev.checkDouble
   repeat' split
@@ -345,7 +386,7 @@ theorem handleKey_eq (d : Dev) (hch : d.channel < 256) (sub : Sub) (node : Strin
           simp only [beq_self_eq_true, if_true]
           by_cases hmn : a = .multinote
           · subst hmn
-            simp only [beq_self_eq_true, if_true, toG_multinote, invokeActionRelease_eq, toG_setActTr, toG_actTr]
+            simp only [beq_self_eq_true, if_true, Multinote_eq, toG_multinote, invokeActionRelease_eq, toG_setActTr, toG_actTr]
             rfl
           · have : (a == Action.multinote) = false := by simpa using hmn
             simp only [this, hmn, Bool.false_eq_true, if_false, invokeActionRelease_eq, toG_setActTr, toG_actTr]
